@@ -59,7 +59,15 @@ def check_signal_case(case):
                       "[%d,%d) offer >= 1.3x the needed charging time; interval %s, departure offset %s"
                       % (p["vid"], e, len(bad), bad[0][0], bad[0][1], a, d, js["scenario"]["interval"], case["dep_offset"])))
         if p["desired"] - p["dep_soc"] > TOL:
-            v.append(("C11/%s/desired-missed%s" % (strategy, "/taper" if taper else ""),
+            sub2 = "/taper" if taper else ""
+            if not taper and len(js["components"]["vehicles"]) == 1:
+                # the even-plan weakness catalogued under C09: head room binding on some encouraged step while others stay under-used
+                lim_ = svc.limit_series(js, res["n"] + 1)
+                csmax = js["components"]["charging_stations"][p["cs"]]["max_power"]
+                enc = [i for i in range(a, min(d, len(pat))) if pat[i]]
+                if any(lim_[i] < csmax - 1e-9 for i in enc) and any(res["charge"][i].get(p["cs"], 0) < min(csmax, lim_[i]) - 1e-3 for i in enc):
+                    sub2 = "/headroom-underused"
+            v.append(("C11/%s/desired-missed%s" % (strategy, sub2),
                       "%s leaves with SoC %.6f < desired %.4f although the encouraged steps alone offer >= 1.3x the needed time; standing [%d,%d)"
                       % (p["vid"], p["dep_soc"], p["desired"], a, d)))
     return v, st
